@@ -3,6 +3,8 @@ import CoercionModel.Proofs.ApiFine
 import CoercionModel.Generated.F9
 import CoercionModel.Model.Skeletons
 import CoercionModel.Generated.F10
+import CoercionModel.Model.SkeletonsRest
+import CoercionModel.Generated.F14
 set_option linter.unusedSimpArgs false
 /-
   C12 — A plan executes at most once; repeated or racing Start is rejected safely.
@@ -152,5 +154,9 @@ theorem facts_skeleton :
     Generated.F10.plansStart = Skeletons.plansStart ∧
     Generated.F10.runPlan = Skeletons.runPlan := by
   decide
+
+/-- the engine functions this property's model depends on only through their effects (group `apiRest` of
+    Model/SkeletonsRest) still have the shape they were read with (regenerated from /repo on every run) -/
+theorem facts_skeleton_rest : Generated.F14.apiRest = SkeletonsRest.apiRest := by rfl
 
 end Coercion.C12
